@@ -75,7 +75,19 @@ fn read_cases(path: &str) -> Vec<(String, String)> {
         let parsed = parse(line).expect("bad case line");
         if let Some(Sexp::List(v)) = parsed.first() {
             if let (Some(Sexp::Str(id)), Some(Sexp::Str(src))) = (v.get(1), v.get(2)) {
-                out.push((id.clone(), src.clone()));
+                // a case with an include path (`create_shader_module(src, path, ..)`): the path travels in front
+                // of the source, between two U+0001 marks (see `one`)
+                let path = v.get(3).and_then(|p| match p {
+                    Sexp::List(pv) => match pv.get(1) {
+                        Some(Sexp::Str(s)) => Some(s.clone()),
+                        _ => None,
+                    },
+                    _ => None,
+                });
+                match path {
+                    Some(p) => out.push((id.clone(), format!("\u{1}{p}\u{1}{src}"))),
+                    None => out.push((id.clone(), src.clone())),
+                }
             }
         }
     }
@@ -94,7 +106,11 @@ fn opts_of(i: usize) -> run::Opts {
 
 /// (hash, len, class) of the result bytes of one call.
 fn one(src: &str, opt: usize) -> (u64, usize, u8) {
-    let o = run::run_real(src, None, opts_of(opt));
+    let (path, src): (Option<&str>, &str) = match src.strip_prefix('\u{1}').and_then(|r| r.split_once('\u{1}')) {
+        Some((p, s)) => (Some(p), s),
+        None => (None, src),
+    };
+    let o = run::run_real(src, path, opts_of(opt));
     let (bytes, class) = match &o {
         run::Outcome::Ok(t) => (format!("ok:{t}"), 0u8),
         run::Outcome::Err(e) => {
